@@ -550,7 +550,6 @@ impl Array {
         // else if all dimensions match
         // else (broadcast)
         } else {
-            let mut flat_indices = vec![0; arrays.len()];
             let mut slices: Vec<&[Float]> = arrays
                 .iter()
                 .zip(&group_lengths)
@@ -564,33 +563,38 @@ impl Array {
 
                 op(output_slice, &slices);
 
-                for (i, (x, d)) in indices
+                for (x, d) in indices
                     .iter_mut()
                     .zip(input_dimensions)
-                    .enumerate()
                     .rev()
                     .skip(op_dimension_count)
                 {
                     if *x == *d - 1 {
                         *x = 0;
                     } else {
-                        for (((index, slice), array), group_length) in flat_indices
-                            .iter_mut()
-                            .zip(slices.iter_mut())
-                            .zip(&arrays)
-                            .zip(&group_lengths)
-                        {
-                            if i < array.dimensions.len().saturating_sub(op_dimension_count)
-                                && array.dimensions[i] != 1
-                            {
-                                *index += group_length;
-                                *slice = &array.values[*index..*index + group_length];
-                            }
-                        }
-
                         *x += 1;
                         break;
                     }
+                }
+
+                // the leading dimensions of each array are aligned with the target from the last one,
+                // and an array stays at index 0 along the dimensions it is broadcast along
+                for ((slice, array), group_length) in
+                    slices.iter_mut().zip(&arrays).zip(&group_lengths)
+                {
+                    let array_leading_end =
+                        array.dimensions.len().saturating_sub(op_dimension_count);
+                    let array_leading_count = cmp::min(array_leading_end, leading_count);
+                    let skipped = leading_count - array_leading_count;
+                    let index = array.dimensions
+                        [array_leading_end - array_leading_count..array_leading_end]
+                        .iter()
+                        .enumerate()
+                        .fold(0, |acc, (i, d)| {
+                            acc * d + if *d == 1 { 0 } else { indices[i + skipped] }
+                        });
+
+                    *slice = &array.values[index * group_length..(index + 1) * group_length];
                 }
             }
         }
